@@ -124,6 +124,8 @@ def run(ctx):
             if e_.get('kind') == 'EnumConstantDecl' and e_.get('name') == 'SKIP_STRINGS':
                 skip_flag = enums.get(e_['id'])
     ctx.require(skip_flag is not None, 'FormatDataFlags::SKIP_STRINGS not found')
+    num_decides = [False]
+    Pfull = None
 
     # ---- R6 round trip by evaluation (E-TABLE): the text the formatter produces for a byte string is
     with ctx.section('C09-R6', 'C09'):
@@ -186,7 +188,10 @@ def run(ctx):
 
             def parse_only(txt):
                 try:
-                    back = PE.call_with(Pfull, [Str(txt), None, 0])
+                    mo_ = Str(b'')
+                    back = PE.call_with(Pfull, [Str(txt), mo_, 0])
+                    if isinstance(back, Str) and bytes(mo_.b) != (b'\x00' if txt.startswith(b'?') else b'\xff') * len(back.b):
+                        return 'bytes %s with mask %s (a construct of n bytes carries n mask bytes, 0xFF unless `?` disabled the mask)' % (bytes(back.b).hex(), bytes(mo_.b).hex())
                     return bytes(back.b) if isinstance(back, Str) else None
                 except Fault as e:
                     return 'faults: %s' % e
@@ -212,6 +217,14 @@ def run(ctx):
                                 num['bad'] = num['bad'] or (txt, got, want)
                             else:
                                 num['ok'] += 1
+            for txt, want in ((b'?#7 ', b'\x07'), (b'?##258 ', b'\x02\x01'), (b'?$###1 ', b'\0\0\0\x01'), (b'?####1 ', b'\x01' + b'\0' * 7), (b'?%1.5 ', _struct.pack('<f', 1.5)), (b'?$%%1.5 ', _struct.pack('>d', 1.5))):
+                if num['und']:
+                    continue
+                got = parse_only(txt)
+                if not num['und'] and got != want:
+                    num['bad'] = num['bad'] or (txt, got, want)
+                elif not num['und']:
+                    num['ok'] += 1
             for fv in (0.0, 1.5, -2.25, 1e10, 3.0e-5):
                 for big in (0, 1):
                     for k_, fmt_ in ((1, 'f'), (2, 'd')):
@@ -224,6 +237,7 @@ def run(ctx):
                             num['bad'] = num['bad'] or (txt, got, want)
                         elif not num['und']:
                             num['ok'] += 1
+            num_decides[0] = not num['und'] and not num['bad']
             if num['und']:
                 ctx.undecided(R, 'numeric-constructs', Pfull, 'the #/%% constructs of the parser could not be evaluated (%s)' % num['und'])
             elif num['bad']:
@@ -242,6 +256,9 @@ def run(ctx):
         # single byte in both forms, every mask of up to three positions): a structural mismatch in
         # R1 / R2 is then another way of writing the same formatter / parser
         ctx.defer({'C09-R1', 'C09-R2'}, 'C09-R6', only=lambda k_: 'mask-read-as-truth' not in k_)
+    if Pfull is not None and num_decides[0]:
+        # every width (#..####, %, %%), both byte orders and the mask bytes of each construct were evaluated
+        ctx.defer({'C09-R4'}, 'C09-R6', only=lambda k_: k_.startswith('width|') or k_ == 'swap-width')
 
 
     def fmt_bytes(bs, flags=0):
